@@ -173,7 +173,7 @@ var (
 )
 
 const (
-	nXpubs   = 3 // imported account keys, derived from other seeds
+	nXpubs   = 5 // imported account keys, derived from other seeds
 	nKeys    = 3
 	nScripts = 2
 	maxAcct  = 8
@@ -1907,6 +1907,9 @@ func genHistory(r *gen.R, tier string) input {
 	// and the model identifies a chained address with (account, branch, index)
 	wo := r.Chance(1, 2)
 	woAccts := map[uint32]bool{}
+	// every xpub is imported at most once per history (the same key under two
+	// account numbers would give both accounts the same addresses)
+	freeKeys := r.Perm(nXpubs)
 	ntx := r.Range(3, 8)
 	if tier == "thorough" {
 		ntx = r.Range(3, 12)
@@ -2036,8 +2039,10 @@ func genHistory(r *gen.R, tier string) input {
 				}
 				o = op{K: "newacct", Name: nm}
 				sawNew = true
-				if wo && r.Chance(1, 2) {
-					o = op{K: "newacctwo", Name: nm, Key: r.Intn(nXpubs),
+				if wo && len(freeKeys) > 0 && r.Chance(1, 2) {
+					key := freeKeys[0]
+					freeKeys = freeKeys[1:]
+					o = op{K: "newacctwo", Name: nm, Key: key,
 						Fp: []uint32{0, 0x11223344, 7}[r.Intn(3)]}
 					switch r.Pick(3, 2, 1, 1, 1) {
 					case 1:
